@@ -264,6 +264,20 @@ func (w *World) barrier() {
 	}
 }
 
+// Call runs a synchronous API call with a watchdog: some calls only give up with the node's own
+// context once the manager has taken the message. false = the call has not returned after 20 s (the
+// goroutine stays behind until the world is closed).
+func (w *World) Call(f func()) bool {
+	done := make(chan struct{})
+	go func() { f(); close(done) }()
+	select {
+	case <-done:
+		return true
+	case <-time.After(20 * time.Second):
+		return false
+	}
+}
+
 // Quiesce waits for (weak) logical quiescence; false = watchdog (inconclusive).
 func (w *World) Quiesce() (bool, string) { return w.Q.Await(5, 60*time.Second) }
 
